@@ -793,12 +793,32 @@ class Engine:
         for (t, n), a in zip(lm.params, args):
             if t == 'real' and not isinstance(a, Seq): a = self.to_real(a)
             s2.env[n] = a
+        cond = self.sv(c.when, st, bound) if getattr(c, 'when', None) is not None else None
+        if cond is not None: s2.assume(cond)
         for cl in lm.requires:
             for cj in self.clause_conjuncts(cl.expr):
                 for v in self.clause_vals(cj, s2):
                     self.oblige(s2, v, 'lemma.requires', 'use %s: %s' % (c.name, SP.show(cj)))
         for cl in lm.ensures:
-            for v in self.clause_vals(cl.expr, s2): st.assume(v)
+            for v in self.clause_vals(cl.expr, s2):
+                if cond is None: st.assume(v)
+                elif isinstance(v, Quant): st.assume(self._guard(v, cond))
+                else: st.assume(z3.Implies(cond, v))
+
+    def assume_validity(self, x, st, positive):
+        """assume valid (conjunction, quantifiers as Quant) or its negation (quantified conjuncts skolemised)"""
+        if positive:
+            self.assume_clause(x, st); return
+        alts = []
+        for c in self.clause_conjuncts(x):
+            if c.k == 'forall':
+                k = fresh(c.var + '!wit', z3.IntSort())
+                lo = self.sv(c.lo, st); hi = self.sv(c.hi, st)
+                b = self.sv(c.body, st, {c.var: k})
+                alts.append(z3.And(lo <= k, k < hi, z3.Not(b)))
+            else:
+                alts.append(z3.Not(self.sv(c, st)))
+        st.assume(z3.Or(*alts))
 
     def clause_conjuncts(self, x):
         if x.k == 'bin' and x.op == '&&':
@@ -880,7 +900,13 @@ class Engine:
         for cl in sp.requires:
             if cl.engines and 'E2' not in cl.engines: continue
             self.check_clause(cl, cs, 'call.requires', what=who)
-        if sp.exits_iff is not None:
+        if sp.valid_iff is not None:
+            if self.mode != 'reject':
+                for c in self.clause_conjuncts(sp.valid_iff.expr):
+                    for v in self.clause_vals(c, cs):
+                        self.oblige(cs, v, 'call.noexit', who + 'callee does not terminate the process: ' + SP.show(c))
+            self.assume_clause(sp.valid_iff.expr, cs)
+        elif sp.exits_iff is not None:
             V = self.sv(sp.exits_iff.expr, cs)
             if self.mode != 'reject':
                 self.oblige(cs, z3.Not(V), 'call.noexit', who + 'callee does not terminate the process: !(%s)' % sp.exits_iff.text)
@@ -1511,7 +1537,9 @@ class Verifier(Engine):
             for cl in fs.requires:
                 if cl.engines and 'E2' not in cl.engines: continue
                 self.assume_clause(cl.expr, st)
-            if fs.exits_iff is not None:
+            if fs.valid_iff is not None:
+                self.assume_validity(fs.valid_iff.expr, st, mode == 'accept')
+            elif fs.exits_iff is not None:
                 V = self.sv(fs.exits_iff.expr, st)
                 st.assume(z3.Not(V) if mode == 'accept' else V)
             for u in fs.uses: self.use_lemma(u, st)
@@ -1533,6 +1561,7 @@ class Verifier(Engine):
                     continue
                 p.scope = None
                 if rv is not None and not f.ret_ref: p.env['result'] = rv
+                for u in fs.uses_post: self.use_lemma(u, p)
                 for cl in fs.ensures:
                     if cl.engines and 'E2' not in cl.engines: continue
                     self.check_clause(cl, p, 'ensures')
@@ -1580,7 +1609,8 @@ class Verifier(Engine):
         st = State()
         for t, n in lm.params:
             tt = {'real': 'double', 'int': 'int', 'nat': 'int', 'bool': 'bool', 'seq': 'seq<double>', 'seq2': 'seq<seq<double>>'}.get(t, t)
-            st.env[n] = self.fresh_val(tt, n, st, constrain=False)
+            if tt in self.records.layout: tt = 'rec:' + tt
+            st.env[n] = self.fresh_val(tt, n, st, constrain=tt.startswith('rec:'))
             if t == 'nat': st.assume(st.env[n] >= 0)
         for cl in lm.requires: self.assume_clause(cl.expr, st)
         if 'induction' in lm.options:
@@ -1601,6 +1631,7 @@ class Verifier(Engine):
                     if isinstance(c, Quant): raise E2Error('lemma %s: quantified conclusion in induction hypothesis' % name)
                     post.append(c)
             st.assume(z3.Implies(z3.And(*(pre + [st.env[v] - 1 >= lb])), z3.And(*post)))
+        for u in lm.uses: self.use_lemma(u, st)
         self.vacuity = getattr(self, 'vacuity', [])
         self.vacuity.append((self.prefix, list(st.pc)))
         for cl in lm.ensures: self.check_clause(cl, st, 'ensures')
@@ -1696,5 +1727,6 @@ class Verifier(Engine):
                 c = p2.clone(); c.env = combined(p1.env, p2.env); c.old = entry; c.scope = None
                 if rv1 is not None: c.env['result'] = rv1
                 if rv2 is not None: c.env['result2'] = rv2
+                for u in rel.uses_post: self.use_lemma(u, c)
                 for cl in rel.ensures: self.check_clause(cl, c, 'ensures')
         return {'relation': name, 'function': f.qual + ' (two runs)', 'paths': [n1, n2], 'rules': f.rules}
